@@ -217,7 +217,20 @@ def rule_buffer(ctx):
     ctx.rule(R, "bytes::Buffer conformance (formula identity per method): len = end-begin; capacity = inner.len()-end; push: n = min(capacity, |buf|), end += n, returns n; extend: end += n; take: begin += n; shift: copy [begin,end) to 0, end -= begin, begin = 0; reset: begin = end = 0")
     inl = Inliner(ctx)
 
+    def expand(t):
+        """replace len()/capacity() of self by their formulas (each pinned by its own obligation below)"""
+        if not isinstance(t, tuple):
+            return t
+        if t[0] == "call" and t[1] == BUF + "::len" and len(t[2]) == 1:
+            x = expand(t[2][0])
+            return ("bin", "Sub", ("field", x, "end"), ("field", x, "begin"))
+        if t[0] == "call" and t[1] == BUF + "::capacity" and len(t[2]) == 1:
+            x = expand(t[2][0])
+            return ("bin", "Sub", ("call", "[T]::len", (("field", x, "inner"),)), ("field", x, "end"))
+        return tuple(expand(x) if isinstance(x, tuple) else x for x in t)
+
     def field_assigns(f):
+        """{field: [assigned terms]} for begin/end: direct assignments and the effects of extend/take/reset on self"""
         T = ctx.T(f)
         out = {}
         for b in f.blocks:
@@ -225,7 +238,17 @@ def rule_buffer(ctx):
                 if s["k"] == "assign":
                     fl = [e.get("n") for e in s["p"].get("pr", []) if isinstance(e, dict)]
                     if fl in (["begin"], ["end"]):
-                        out.setdefault(fl[0], []).append(norm_arith(T.rvalue(s["r"])))
+                        out.setdefault(fl[0], []).append(expand(norm_arith(T.rvalue(s["r"]))))
+        if f.qname not in (BUF + "::extend", BUF + "::take", BUF + "::reset"):
+            for c in T.calls():
+                a = T.args_of(c)
+                if c["q"] == BUF + "::extend" and a[0][0] == "param" and a[0][1] == 1:
+                    out.setdefault("end", []).append(("bin", "Add", ("field", a[0], "end"), expand(norm_arith(a[1]))))
+                elif c["q"] == BUF + "::take" and a[0][0] == "param" and a[0][1] == 1:
+                    out.setdefault("begin", []).append(("bin", "Add", ("field", a[0], "begin"), expand(norm_arith(a[1]))))
+                elif c["q"] == BUF + "::reset" and a[0][0] == "param" and a[0][1] == 1:
+                    out.setdefault("begin", []).append(("const", 0))
+                    out.setdefault("end", []).append(("const", 0))
         return out
 
     def selff(name):
@@ -253,35 +276,46 @@ def rule_buffer(ctx):
     cw = [T.args_of(c) for c in T.calls() if c["q"] == "[T]::copy_within"]
     okc = bool(cw) and all(x[2] == ("const", 0) and x[1][0] == "agg" and x[1][1] == "std::ops::Range" and selff("begin")(dict(x[1][3])["start"]) and selff("end")(dict(x[1][3])["end"]) for x in cw)
     ok = okc and a.get("begin") == [("const", 0)] and len(a.get("end", [])) == 1 and a["end"][0][0] == "bin" and a["end"][0][1] == "Sub" and selff("end")(a["end"][0][2]) and selff("begin")(a["end"][0][3])
-    # order: end -= begin must precede begin = 0
-    order_ok = False
-    for bi, b in enumerate(f.blocks):
-        idx = {}
-        for si, s in enumerate(b["s"]):
-            if s["k"] == "assign":
-                fl = [e.get("n") for e in s["p"].get("pr", []) if isinstance(e, dict)]
-                if fl in (["begin"], ["end"]):
-                    idx[fl[0]] = si
+    # order: the value end - begin must be computed before begin is zeroed
     cfg = ctx.cfg(f)
-    eb = [bi for bi, b in enumerate(f.blocks) for s in b["s"] if s["k"] == "assign" and [e.get("n") for e in s["p"].get("pr", []) if isinstance(e, dict)] == ["end"]]
-    bb_ = [bi for bi, b in enumerate(f.blocks) for s in b["s"] if s["k"] == "assign" and [e.get("n") for e in s["p"].get("pr", []) if isinstance(e, dict)] == ["begin"]]
-    if eb and bb_:
-        if eb[0] == bb_[0]:
-            ss = f.blocks[eb[0]]["s"]
-            ie = [i for i, s in enumerate(ss) if s["k"] == "assign" and [e.get("n") for e in s["p"].get("pr", []) if isinstance(e, dict)] == ["end"]][0]
-            ib = [i for i, s in enumerate(ss) if s["k"] == "assign" and [e.get("n") for e in s["p"].get("pr", []) if isinstance(e, dict)] == ["begin"]][0]
-            order_ok = ie < ib
-        else:
-            order_ok = cfg.dominates(eb[0], bb_[0])
+
+    def pos_of_field_assign(fld):
+        for bi, b in enumerate(f.blocks):
+            for si, st in enumerate(b["s"]):
+                if st["k"] == "assign" and [e.get("n") for e in st["p"].get("pr", []) if isinstance(e, dict)] == [fld]:
+                    return (bi, si, st)
+        return None
+    pe, pb = pos_of_field_assign("end"), pos_of_field_assign("begin")
+    order_ok = False
+    if pe and pb:
+        ev = (pe[0], pe[1])
+        r = pe[2]["r"]
+        for _ in range(6):      # follow copies back to where the value was computed
+            if r["k"] != "use":
+                break
+            pl = r["o"].get("c") or r["o"].get("m")
+            if pl is None or pl.get("pr"):
+                break
+            d = T.single_def(pl["l"])
+            if d is None:
+                break
+            if d[0] == "s":
+                ev = (d[1], d[2])
+                r = f.blocks[d[1]]["s"][d[2]]["r"]
+            else:
+                ev = (d[1], len(f.blocks[d[1]]["s"]))
+                break
+        order_ok = (ev[1] < pb[1]) if ev[0] == pb[0] else cfg.dominates(ev[0], pb[0])
     ctx.ob(R, "shift", ok and order_ok, "shift(): copy_within(begin..end, 0); end -= begin; begin = 0 (in this order)" if ok and order_ok else "shift does not implement the compaction formula: %s" % {k: [show(x) for x in v] for k, v in a.items()}, f.loc())
     f = ctx.fn(BUF + "::push")
     a = field_assigns(f)
     T = ctx.T(f)
-    mins = [T.args_of(c) for c in T.calls() if c["q"] == "std::cmp::min"]
+    MIN = ("std::cmp::min", "std::cmp::Ord::min")
+    mins = [T.args_of(c) for c in T.calls() if c["q"] in MIN]
     okm = bool(mins) and all({x[0][1] if x[0][0] == "call" else None, x[1][1] if x[1][0] == "call" else None} == {BUF + "::capacity", "[T]::len"} for x in mins)
-    oke = set(a) == {"end"} and all(x[0] == "bin" and x[1] == "Add" and selff("end")(x[2]) and x[3][0] == "call" and x[3][1] == "std::cmp::min" for x in a["end"])
+    oke = set(a) == {"end"} and all(x[0] == "bin" and x[1] == "Add" and selff("end")(x[2]) and x[3][0] == "call" and x[3][1] in MIN for x in a["end"])
     rt = inl.ret_term(f)
-    okr = rt is not None and rt[0] == "call" and rt[1] == "std::cmp::min"
+    okr = rt is not None and rt[0] == "call" and rt[1] in MIN
     ctx.ob(R, "push", okm and oke and okr, "push(buf): n = min(capacity(), buf.len()); end += n; returns n" if okm and oke and okr else "push deviates (min %s, end %s, ret %s)" % (okm, oke, okr), f.loc())
 
 
